@@ -249,9 +249,11 @@ def run_gen(job):
         for name in SERS:
             ser = sers[(name, True)]
             res, flags, payload = roundtrip(ser, [build(c, k) for c, k in group])
+            # the octets of each message on its own (unbatched object serializer), for the Lean batching model
+            parts = [sers[(name, False)]._serializer.serialize(build(c, k).marshal()).hex() or "-" for c, k in group]
             out_batches.append({"ser": name + ".batched", "n": n, "expected": exp,
                                 "got": res if isinstance(res, str) else [list(r) for r in res],
-                                "payload": payload.hex()})
+                                "payload": payload.hex(), "parts": parts})
     return {"messages": out_msgs, "batches": out_batches, "flags": flags_out, "cache": cache_checks() if part == 0 else []}
 
 
